@@ -80,6 +80,12 @@ func (sp SkipPredicates) Add(podID common_info.PodID, predicateName k8s_internal
 	sp[podID][predicateName] = true
 }
 
+func (sp SkipPredicates) Remove(podID common_info.PodID, predicateName k8s_internal.PredicateName) {
+	if predicates, found := sp[podID]; found {
+		delete(predicates, predicateName)
+	}
+}
+
 func (sp SkipPredicates) ShouldSKip(podID common_info.PodID, predicateName k8s_internal.PredicateName) bool {
 	if _, found := sp[podID]; !found {
 		return false
@@ -132,6 +138,11 @@ func evaluateTaskOnPrePredicate(task *pod_info.PodInfo, k8sPredicates k8s_intern
 		nodes, status := predicate.PreFilter(task.Pod)
 		if status.IsSkip() {
 			skipPredicates.Add(task.UID, name)
+		} else {
+			// The pre-filter is evaluated again by every action. A skip decided earlier in the session must not
+			// outlive the state it was computed on: e.g. a pod with required anti-affinity that was nominated in
+			// the meantime makes the inter-pod-affinity filter necessary for this pod.
+			skipPredicates.Remove(task.UID, name)
 		}
 
 		if status.AsError() != nil {
